@@ -127,7 +127,9 @@ class LTLExplainer(LtlAstVisitor):
         op_intervals = explain_rise(op_signal, intervals)
         self.explanations[element.name] = intervals
 
+        # an edge constrains the operand with one polarity at t-1 and the other at t
         self.visit(element.children[0], [op_intervals, flag])
+        self.visit(element.children[0], [op_intervals, not flag])
 
     def visitFall(self, element, args):
         intervals = args[0]
@@ -136,7 +138,9 @@ class LTLExplainer(LtlAstVisitor):
         op_intervals = explain_fall(op_signal, intervals)
         self.explanations[element.name] = intervals
 
+        # an edge constrains the operand with one polarity at t-1 and the other at t
         self.visit(element.children[0], [op_intervals, flag])
+        self.visit(element.children[0], [op_intervals, not flag])
 
     def visitNot(self, element, args):
         intervals = args[0]
